@@ -42,6 +42,33 @@ def derived_sizes(rng, srcs):
     return sorted(b for b in out if 64 <= b <= 0xFFFFFF)
 
 
+def in_stamp_sizes(rng, srcs, want=6):
+    """block sizes that put a block boundary at an inner byte of some message's stamp: for a message starting at offset o
+    and a byte d of its first 40, the sizes (o + d) / k that are whole and at least 64"""
+    out = set()
+    for s in srcs:
+        if not s.plain or not s.msgs:
+            continue
+        head = len(s.plain) - sum(len(m.data) for m in s.msgs)       # preamble before the first message
+        offs = []
+        o = head
+        for m in s.msgs:
+            if o > 0:
+                offs.append(o)
+            o += len(m.data)
+        for _ in range(want * 3):
+            if not offs:
+                break
+            o = rng.choice(offs)
+            x = o + rng.randint(1, 40)
+            ks = [k for k in (1, 2, 3, 4, 5, 7) if x % k == 0 and x // k >= 64]
+            if ks:
+                out.add(x // rng.choice(ks))
+    out = sorted(out)
+    rng.shuffle(out)
+    return out[:want]
+
+
 def gen_wild(rng):
     """content outside the single-notation generator: a second timestamp notation and digits appear inside messages
     (legal input; no reference model -- the oracle for this family is only 'same output as at the default block size')"""
@@ -148,6 +175,13 @@ def run_case(seed, i, tier):
         srcs = gen_case(rng)
         base_opts = ["--color", "never", "--tz-offset", "+00:00"]
         expected = merge.model_stdout(srcs)
+    if not wild and rng.random() < 0.4:
+        # show the instant each message was given: a block boundary inside a stamp must not change what is parsed from it
+        base_opts = base_opts + rng.choice((["-u", "-d", "%Y%m%dT%H%M%S%.9f|"], ["-u", "-d", "%Y%m%dT%H%M%S%.9f|", "-n"], ["-l", "-d", "%s%.6f "]))
+        expected = None
+        dated = True
+    else:
+        dated = False
     sizes = list(FIXED)
     if i % 4 == 1:
         sizes += [2048, 2055, 2056, 2057, 2100, 8192]      # around the printer's staging buffer
@@ -158,10 +192,13 @@ def run_case(seed, i, tier):
     ds = derived_sizes(rng, srcs)
     rng.shuffle(ds)
     sizes += ds[:6 if tier == "quick" else 16]
+    inst = [b for b in in_stamp_sizes(rng, srcs, 6 if tier == "quick" else 16) if b not in sizes] if not wild else []
+    sizes += inst
     if tier == "quick":
         keep = set(rng.sample(sizes, min(len(sizes), 8)))
         if aligned:
             keep.update(sizes[:3])
+        keep.update(inst[:4 if dated else 2])
         sizes = [b for b in sizes if b in keep]
     cr = CaseResult()
     nw = mergecheck.n_workers(srcs)
@@ -184,6 +221,8 @@ def run_case(seed, i, tier):
         cr.probes["aligned_multiline_first_message_family"] += 1
     if i % 16 == 4:
         cr.probes["stamp_inside_the_line_family"] += 1
+    if dated:
+        cr.probes["parsed_instant_shown"] += 1
     for bsz in sizes:
         if wild:
             # F-C12a steering for this family: the first line (<= 70 bytes) must end inside block zero, and a block zero
@@ -237,7 +276,7 @@ def replay(rp):
 RULE = ("one case = 1..3 generated text logs (boundary-targeted, all containers; every 4th case lines of 2..70 KB; every 8th case a multi-line first message whose first line ends exactly on a block's last byte, followed by lines of up to several blocks; every 4th "
         "case 'wild' content with a second timestamp notation inside messages) printed at the default block size and "
         "at ~8 (quick) / all (thorough) of {64,65,100,127,128,255,256,1000,4096,65536,0xFFFFFF} + content-derived "
-        "sizes (line length +-1, message length +-1, file size +-1, file size/k), decimal and hex spellings; "
+        "sizes (line length +-1, message length +-1, file size +-1, file size/k, and sizes that put a block boundary at an inner byte of some message's stamp), spelled in any of the four radixes; 40% of the cases show each message's parsed instant (-u/-l -d ...%.9f); "
         "non-trivial = a run at a non-default size; distinct = (scenario digest, block size)")
 ASSUMPTIONS = ["(scenario, size) pairs outside merge.blockzero_safe are skipped and counted (known finding F-C12a)",
                "block sizes below 64 are rejected by the binary and not explored"]
